@@ -151,3 +151,72 @@ def fn_span(fn):
 
 def short(key):
     return key.split("::")[-1] if not key.startswith("<") else key
+
+
+# ---- merge/union guards ------------------------------------------------------------------
+
+def self_write_blocks(ctx, fn):
+    """blocks of fn (its own frame) containing a store into *self, an external mutator call on a self-rooted
+    &mut, or a call to a local callee whose summary writes self"""
+    from ..paths import Origins, is_mut_access_ty, NON_MUTATING, BORROWING
+    org = Origins(fn)
+    out = []
+    for bi, blk in enumerate(fn.blocks):
+        if blk.cleanup:
+            continue
+        hit = False
+        for st in blk.stmts:
+            if st.k == "assign" and st.place.proj:
+                o = org.of_place(st.place)
+                if o is not None and o.root == SELF:
+                    hit = True
+        t = blk.term
+        if t.k == "call":
+            if t.callee_is_local() and ctx.prog.fn(t.callee()) is not None:
+                alts = ctx.summ.alternatives(t.callee()) or []
+                selfpassed = [i for i, a in enumerate(t.args) if a.place is not None and a.place.is_local() and (org.of_local(a.place.local) is not None and org.of_local(a.place.local).root == SELF)]
+                for (wevs, _, _) in alts:
+                    for w in wevs:
+                        if w["root"][0] == "param" and (w["root"][1] - 1) in selfpassed and w["how"] != "borrow":
+                            hit = True
+            else:
+                for a in t.args:
+                    if a.place is not None and a.place.is_local() and is_mut_access_ty(fn.local_ty(a.place.local)):
+                        o = org.of_local(a.place.local)
+                        if o is not None and o.root == SELF and t.callee_name() not in NON_MUTATING and t.callee_name() not in BORROWING:
+                            hit = True
+        if hit:
+            out.append(bi)
+    return out
+
+
+def symmetric_guards(ctx, fn, tb=None):
+    """terms A such that the fact A == A[self<->other] holds at every self-writing block of fn"""
+    from ..guards import atomic_facts
+    from ..terms import TermBuilder, swap_self_other, erase_param_names, mk
+    tb = tb or TermBuilder(fn, ctx.prog)
+    wbs = self_write_blocks(ctx, fn)
+    if not wbs:
+        return None, []
+    common = None
+    for b in wbs:
+        here = {}
+        for c, truth in atomic_facts(fn, ctx.prog, b, tb):
+            if not truth or c[0] != "op" or c[1] != "Eq" or len(c[2]) != 2:
+                continue
+            a, bb_ = c[2]
+            if erase_param_names(swap_self_other(a)) == erase_param_names(bb_):
+                # orient on the self side
+                side = a if any(s[0] == "param" and s[1] == 1 for s in subterms(a)) else bb_
+                here[repr(erase_param_names(side))] = side
+        common = here if common is None else {k: v for k, v in common.items() if k in here}
+    return wbs, list((common or {}).values())
+
+
+def fields_mentioned(t):
+    """first-level fields of param 1 mentioned in t"""
+    out = set()
+    for s in subterms(t):
+        if s[0] == "field" and s[1][0] == "param" and s[1][1] == 1:
+            out.add(s[2])
+    return out
